@@ -1055,6 +1055,8 @@ class Verifier:
     def bind_target(self, tgt, val, st, node, mutation=False):
         if isinstance(tgt, ast.Name):
             cur = st.env.get(tgt.id)
+            if mutation:
+                self.check_not_shared(st, cur, node, 'in-place mutation')
             if mutation and isinstance(cur, MAlias):
                 self.set_attr(st, cur.obj, cur.attr, val, node)
                 return
@@ -1298,9 +1300,18 @@ class Verifier:
         else:
             raise Unsupported('augmented assignment target')
         rhs = self.ev(s.value, st)
+        self.check_not_shared(st, cur, s, 'augmented assignment (in-place for lists, sets and dicts)')
         val = self.binop(s.op, cur, rhs, st, s)
         self.bind_target(s.target, val, st, s)
         return [Outcome(NORMAL, st)]
+
+    def check_not_shared(self, st, cur, node, what):
+        """frame obligation: a container owned by a callee (memoised result handed out by reference) is not mutated"""
+        if isinstance(cur, SV) and getattr(cur, 'shared', None) and isinstance(cur.t, (SeqT, SetT, DictT)) \
+                and not self.spec_mode:
+            self.oblige(st, z3.BoolVal(False), 'frame',
+                        'the container returned by %s is shared with later callers and must not be changed in place: %s'
+                        % (cur.shared, what), node, assume=False)
 
     def st_Return(self, s, st):
         val = self.ev(s.value, st) if s.value is not None else MNONE
